@@ -74,11 +74,14 @@ def signature(harness, params, rec):
 
 def jobs(tier):
     out = []
+    focus = []
     if tier == "quick":
         combos = [(f, b, 2, 1) for f in ("oid", "path") for b in (1, 2)]
+        # deeper schedules (2 slots) on the conflict shapes where the known findings live
+        focus = [(f, 1, 2, 2, [s, "create_b"]) for f in ("oid", "path") for s in (0, 1)]
     else:
         combos = [(f, b, 2, 2) for f in ("oid", "path", "mixed") for b in (0, 1, 2)] + \
-                 [(f, b, 2, 1) for f in ("oid-ci", "path-ci", "oid-filt") for b in (1, 2)] + \
+                 [(f, b, 2, 1) for f in ("oid-ci", "oid-filt") for b in (1, 2)] + \
                  [(f, b, 3, 1) for f in ("oid", "path") for b in (2,)]
     for f, b, n, s in combos:
         # split by the first operation so that the path tree starts 22-wide (work distribution)
@@ -86,6 +89,9 @@ def jobs(tier):
             for op in OPS:
                 out.append({"harness": "hist", "params": {"flavour": f, "base": b, "nops": n, "slots": s, "first": [side, op]},
                             "label": "%s/base%d/%dops/%dslots/first=%d:%s" % (f, b, n, s, side, op), "min_leaves": 1})
+    for f, b, n, s, first in focus:
+        out.append({"harness": "hist", "params": {"flavour": f, "base": b, "nops": n, "slots": s, "first": first},
+                    "label": "%s/base%d/%dops/%dslots/first=%d:%s" % (f, b, n, s, first[0], first[1])})
     return out
 
 
